@@ -280,6 +280,14 @@ def write_replay(pid, kind, detail):
     return path
 
 
+def anchors_summary():
+    try:
+        r = json.load(open(os.path.join(LEAN, "TzVerif", "Generated", "anchors_report.json")))
+        return {"model_anchors": r.get("anchors"), "missing_functions": r.get("missing"), "bodies_changed_since_baseline": r.get("changed_since_baseline")}
+    except (OSError, ValueError):
+        return {}
+
+
 def load_known():
     try:
         return json.load(open(os.path.join(ROOT, "known_findings.json")))
@@ -460,6 +468,7 @@ def finish(pid, cfg, tier, seed, t0, tally, violations, known_hits, p_ok, theore
         "oracle_runs": sum(tally.fam.get(f, {}).get("oracle_runs", 0) for f in fams),
         "known_findings_replayed": [k for k, _ in known_hits],
         "generated_constants": gen,
+        "anchors": anchors_summary(),
         "group_wall_s": walls or {},
         "explanation": cfg.get("explanation", ""),
         "exhaustive": bool(cfg.get("exhaustive", False)),
